@@ -48,6 +48,12 @@ def _chunks(xs, n):
 
 CASE_TIMEOUT_S = float(os.environ.get("VJX_CASE_TIMEOUT", "5"))   # one case normally takes milliseconds
 MAX_TIMEOUTS_PER_CHUNK = 3
+# ... and per run: once this many cases have been shown not to return, the property is decided (C08 reports each of them) and
+# isolating further ones only costs a minute apiece (a seeded non-returning type resolution kept a quick check busy for half an
+# hour); the remaining cases of chunks that died are reported as not run
+MAX_TIMEOUTS_PER_RUN = int(os.environ.get("VJX_MAX_TIMEOUTS", "6"))
+_timeouts_seen = [0]
+_timeouts_lock = threading.Lock()
 # address-space limit of every harness process: a transform that stops returning usually also allocates without bound (18 GB in
 # a minute for a seeded change of the type resolver) and sixteen of those in parallel would take the machine down before the
 # wall-clock limit fires; under the limit the allocation fails, the process aborts and the case is reported as an abort
@@ -82,7 +88,7 @@ def _run_harness_chunk(args):
         # time, each under a wall-clock limit; after a few timeouts the rest of the chunk is reported as not run
         recs, n_to = [], 0
         for c in cases:
-            if n_to >= MAX_TIMEOUTS_PER_CHUNK:
+            if n_to >= MAX_TIMEOUTS_PER_CHUNK or _timeouts_seen[0] >= MAX_TIMEOUTS_PER_RUN:
                 recs.append({"id": c.get("id"), "not_run": True})
                 continue
             try:
@@ -96,6 +102,8 @@ def _run_harness_chunk(args):
                                        env=env, timeout=max(60.0, 12 * CASE_TIMEOUT_S), preexec_fn=_limit_mem)
             except subprocess.TimeoutExpired:
                 n_to += 1
+                with _timeouts_lock:
+                    _timeouts_seen[0] += 1
                 recs.append({"id": c.get("id"), "abort": True, "timeout": True, "returncode": None,
                              "stderr": "no result within %.0f s, nor within %.0f s when run again alone (the transform does not return on this input)" % (CASE_TIMEOUT_S, max(60.0, 12 * CASE_TIMEOUT_S))})
                 continue
